@@ -590,6 +590,35 @@ def r2(ctx, r):
         cp = common.cmp_parts(e.node)
         if cp and cp[0] == "==" and len(f.params) == 1 and is_var(strip_views(cp[1]), f.params[0]["d"]):
             lits += [x.get("v") for x in walk(cp[2]) if x.get("k") == "str"]
+    # table form: a local array / initializer list of string literals searched with an <algorithm> call — any_of / find_if / count_if with
+    # a lambda that is exactly `method == element` (either way round), or find / count with the method itself as the value
+    md = f.params[0]["d"] if len(f.params) == 1 else None
+    tables = {v["d"]: [x.get("v") for x in v["init"].get("vals", [])] for e in f.stmts() if e.node.get("k") == "decl" for v in e.node["vars"]
+              if isinstance(v.get("init"), dict) and v["init"].get("k") == "ilist" and v["init"].get("vals") and all(x.get("k") == "str" for x in v["init"]["vals"])}
+    for e in f.stmts():
+        n = e.node
+        if n.get("k") != "call" or last(n.get("callee", "")) not in ("any_of", "find_if", "count_if", "find", "count") or not (n.get("callee") or "").startswith("std::") or len(n["args"]) != 3:
+            continue
+        tds = {x["d"] for a in n["args"][:2] for x in walk(a) if x.get("k") == "var" and x.get("d") in tables}
+        if len(tds) != 1:
+            continue
+        third = strip_casts(strip_wrappers(n["args"][2]))
+        exact = False
+        if last(n["callee"]) in ("find", "count"):
+            exact = md is not None and is_var(strip_views(third), md)
+        elif third is not None and third.get("k") == "lambda":
+            lf = [lf_ for (ln, lf_) in f.lambdas if lf_.name == third.get("fn") and lf_.ok]
+            caps = {c["n"] for c in third.get("caps", []) if c.get("d") == md}
+            rets = common.returns(lf[0]) if len(lf) == 1 else []
+            if len(rets) == 1 and len(lf[0].params) == 1 and len(list(lf[0].stmts())) >= 1:
+                cp = common.cmp_parts(strip_casts(rets[0].node.get("v") or {}))
+                if cp and cp[0] == "==":
+                    sides = [strip_views(cp[1]), strip_views(cp[2])]
+                    is_cap = lambda x: x is not None and x.get("k") == "var" and x.get("cap") and x.get("n") in caps
+                    is_el = lambda x: x is not None and x.get("k") == "var" and x.get("parm") == 0 and not x.get("cap")
+                    exact = (is_cap(sides[0]) and is_el(sides[1])) or (is_cap(sides[1]) and is_el(sides[0]))
+        if exact:
+            lits += tables[list(tds)[0]]
     lits = sorted(set(lits))
     if not lits:
         raise AnalysisBroken("isIdempotentMethod: no compared literals found")
@@ -597,7 +626,7 @@ def r2(ctx, r):
     for l in lits:
         r.expect(l in IDEMPOTENT, f, None, "method %s" % l, "isIdempotentMethod treats `%s` as idempotent; RFC 9110 §9.2.2 lists %s" % (l, ", ".join(sorted(IDEMPOTENT))), okdesc="%s is idempotent" % l)
     r.instance()
-    calls = {last(x.get("callee", "")) for e in f.stmts() for x in walk(e.node) if x.get("k") in ("call", "mcall")}
+    calls = {last(x.get("callee", "")) for g in [f] + [lf_ for (ln, lf_) in f.lambdas if lf_.ok] for e in g.stmts() for x in walk(e.node) if x.get("k") in ("call", "mcall")}
     r.expect(not (calls & {"tolower", "toupper", "strcasecmp", "ciEquals", "transform"}), f, None, "case-insensitive method", "isIdempotentMethod compares case-insensitively (the method token is case-sensitive; `get` is not GET)", okdesc="exact comparison")
 
 
@@ -714,7 +743,36 @@ def probe_table(ctx):
         if "isErr()" in txt and "==" in txt and "Timeout" in txt:
             return "quiet"
         return "unknown"
-    ctx._c17_probes = {g.name: probe_summary(g) for g in ctx.fb().methods_of(HC) if g.ok and probe_summary(g)}
+    fb = ctx.fb()
+    probes = {g.name: probe_summary(g) for g in fb.methods_of(HC) if g.ok and probe_summary(g)}
+    # derived probes: a one-argument boolean method of the client whose answer is decided by a probe of that same argument
+    # (`return setReadMode(id, Sync) && !inputPending(id);`): summarised over the single atom 'the probe found input pending' —
+    # true ⇒ ¬pending makes it a 'quiet' probe, a result equal to pending a 'pending' probe.  Two rounds: probes built on derived probes.
+    for _round in range(2):
+        for g in fb.methods_of(HC):
+            if not g.ok or g.name in probes or len(g.params) != 1 or not g.file.endswith(HCF) or not any(x.get("k") == "mcall" and x.get("callee") in probes for x in g.nodes.values()):
+                continue
+            pd = g.params[0]["d"]
+
+            def leaf(n, pd=pd):
+                if n.get("k") == "mcall" and n.get("callee") in probes and len(n["args"]) == 1 and is_var(n["args"][0], pd):
+                    kind = probes[n["callee"]]
+                    return A("pending") if kind == "pending" else Not(A("pending")) if kind == "quiet" else None
+                return None
+            ab = Abs(fb, ["pending"], leaf, None, call_atoms=("pending",))
+            call = {"k": "mcall", "callee": g.name, "t": "bool", "args": [{"k": "var", "n": g.params[0].get("n", "p"), "d": pd, "parm": 0, "t": g.params[0]["t"]}]}
+            if hc_callee(fb, call) is not g:
+                continue
+            sm = ab.summary(g, call)
+            if sm is None:
+                continue
+            v = Vocab(["pending"])
+            ft = sm[0][1] if sm[0][0] == "and?" else sm[0]
+            if ft != T and v.entails(v.mask(ft), Not(A("pending"))) and v.mask(ft) != 0:
+                probes[g.name] = "quiet"
+            elif sm[0][0] != "and?" and v.mask(ft) == v.mask(A("pending")):
+                probes[g.name] = "pending"
+    ctx._c17_probes = probes
     return ctx._c17_probes
 
 
@@ -1061,15 +1119,17 @@ def r7(ctx, r):
         # the receive result and the completion flag are found through what they hold (the value of receiveSync / of frameResponse)
         rr_d = var_initialised_by(e_, rcv[0])
         fcs = [e for e in e_.stmts() if e.node.get("k") == "mcall" and e.node.get("callee") == HC + "::frameResponse"]
+        # (a loop without a completion flag — `for (;;) { … if (frameResponse(…)) break; }` — leaves by break: then no element of the
+        # loop body that leads back to the receive may be reached with an error result at all; `comp` stays false)
         comp_d = var_initialised_by(e_, fcs[0]) if len(fcs) == 1 else None
-        if rr_d is None or comp_d is None:
-            raise AnalysisBroken("executeRequest: cannot identify the variables holding the results of receiveSync / frameResponse")
+        if rr_d is None:
+            raise AnalysisBroken("executeRequest: cannot identify the variable holding the result of receiveSync")
         vocab = Vocab(["ok", "comp"])
 
         def leaf(n):
             if n.get("k") == "mcall" and last(n.get("callee", "")) in ("isOk", "isErr") and is_var(n.get("obj"), rr_d):
                 return A("ok") if last(n["callee"]) == "isOk" else Not(A("ok"))
-            if n.get("k") == "var" and n.get("d") == comp_d:
+            if comp_d is not None and n.get("k") == "var" and n.get("d") == comp_d:
                 return A("comp")
             return None
 
@@ -1078,16 +1138,16 @@ def r7(ctx, r):
                 return [("havoc", "ok")]
             if e.kind != "stmt":
                 return None
-            a = asg(e.node)
+            a = asg(e.node) if comp_d is not None else None
             if a and is_var(a[0], comp_d):
                 cv = const_value(strip_casts(a[1]))
                 return [("set", "comp", bool(cv))] if cv is not None else [("havoc", "comp")]
             if e.node.get("k") == "decl":
                 for v in e.node["vars"]:
-                    if v.get("d") == comp_d:
+                    if comp_d is not None and v.get("d") == comp_d:
                         return [("set", "comp", bool(const_value(strip_casts(v.get("init") or {}))))]
             return None
-        pa = PredAbs(e_, vocab, leaf, effects, eh=False)
+        pa = PredAbs(e_, vocab, leaf, effects, eh=False, init=T if comp_d is not None else Not(A("comp")))
         ends = [x for x in e_.elems() if x.kind == "dtor" and x.raw.get("d") == rr_d and search(e_, x, lambda y: y is rcv[0], eh=False) is not None]
         okl = bool(ends) and all(pa.entails(x, Or(A("ok"), A("comp"))) for x in ends)
     r.expect(okl, e_, None, "error arm loops", "an error result of receiveSync can lead back to another receive without the exchange being complete: a failing peer is polled again instead of the attempt failing", okdesc="every error arm throws or completes")
